@@ -701,3 +701,124 @@ PROPS['C19'] = dict(gen=gen_c19, relevant=('C19|', 'C09|'), counters=('nnz',), b
                     '(1..4 threads), ?langs (M,1,O,I,F,E), ?CompRow_to_CompCol, ?Copy_CompCol_Matrix, ?Create_CompCol_Permuted on random m x n matrices incl. empty columns; 4 precisions; '
                     'distinct = sha1(case); non-trivial = nnz>=2 and judged; oracle: dense extended-precision definition with the standard bound gamma(k+3)(|alpha||A||x|+|beta||y|), '
                     'residual bound gamma(n+2)|T||x| for the solves, (k+4)u for norms (max-norm of a real matrix exact), bitwise multiset equality for conversions, inputs unchanged')
+
+# ---- C10 ----
+def gen_c10(ctx):
+    rng = ctx.rng
+    out = []
+    # exhaustive: every 0/1 pattern with n<=3 (quick) / n<=4 (thorough), each ordering, both modes
+    nmax = 3 if ctx.quick else 4
+    k = 0
+    for n in range(1, nmax + 1):
+        step = 1 if n <= 3 else 5
+        for bits in range(0, 1 << (n * n), step):
+            for ord_ in (0, 1, 2, 3):
+                k += 1
+                if n == 3 and ctx.quick and (k % 2): continue
+                c = {'cmd': 'order', 'sub': 'colorder', 'fam': 'bits', 'n': n, 'bits': bits, 'ord': ord_, 'symm': k % 2, 'seed': 1 + k % 13, 'exh': 1}
+                if k % 5 == 0: c['randperm'] = 1
+                out.append(({'variant': 'plain' if k % 4 else 'asan', 'prec': 'd'}, c))
+    N = 2500 if ctx.quick else 40000
+    for i in range(N):
+        n = rng.choice([2, 3, 5, 8, 12, 20, 30, 50, 80, 120] if ctx.quick else [2, 3, 5, 8, 12, 20, 30, 50, 80, 120, 200, 300])
+        fam = rng.choice(['rand', 'rand', 'randnd', 'band', 'grid', 'arrow', 'star', 'forest', 'chain', 'dense'])
+        if fam == 'dense': n = min(n, 20)
+        c = {'cmd': 'order', 'sub': 'colorder', 'fam': fam, 'n': n, 'seed': rng.randrange(1, 1 << 30), 'ord': rng.choice([0, 1, 2, 3]), 'symm': rng.choice([0, 0, 1])}
+        if fam in ('rand', 'randnd'):
+            c['dens'] = round(min(1.0, rng.choice([1.0, 2.5, 5]) / n), 4); c['transversal'] = rng.choice([0, 1])
+        if fam in ('star', 'forest'): c['bs'] = rng.choice([1, 2, 3, 5]); c['ncpl'] = rng.choice([1, 2])
+        r = rng.random()
+        if r < 0.15: c['emptycol'] = rng.randrange(n)
+        elif r < 0.3: c['emptyrow'] = rng.randrange(n)
+        elif r < 0.4: c['denserow'] = rng.randrange(n)
+        elif r < 0.5: c['densecol'] = rng.randrange(n)
+        if rng.random() < 0.25: c['randperm'] = 1
+        if rng.random() < 0.1:
+            # rectangular: orderings only
+            c['sub'] = 'permc'; c['m'] = max(1, n + rng.choice([-3, -1, 2, 7])); c['ord'] = rng.choice([0, 1, 3]); c['transversal'] = 0; c['fam'] = 'rand'; c['dens'] = 0.2
+            for k2 in ('emptycol', 'emptyrow', 'denserow', 'densecol'): c.pop(k2, None)
+        out.append(({'variant': 'asan' if i % 5 == 0 else 'plain', 'prec': rng.choice(['d', 's'])}, c))
+    return out
+
+PROPS['C10'] = dict(gen=gen_c10, relevant=('C10|',), counters=('nnz', 'n'), batch=40,
+                    nontrivial=lambda r: (r.get('result') or {}).get('n', 0) >= 3 and (r.get('result') or {}).get('nnz', 0) >= 2,
+                    rule='get_perm_c(0..3) and sp_colorder (symmetric mode on/off, library or random caller ordering) on every 0/1 pattern with n<=3 (quick) / sampled n<=4 (thorough) and on random/structured patterns '
+                    'up to n=120/300 with empty rows/columns, dense rows/columns, rectangular shapes (orderings only); plain + ASan builds; distinct = sha1(case); non-trivial = n>=3, nnz>=2; '
+                    'oracle: bijections; A*Pc shares A`s arrays and column perm_c[j] is column j; reported etree = parent function of the Cholesky factor of the explicitly formed pattern of (A*Pc)^T(A*Pc) '
+                    '(or Pc(A+A^T)Pc^T) by naive symbolic elimination; contiguous subtrees; perm_c_out o perm_c_in^-1 relabels the reference tree of A*Pc_in; part_super_h tiles 0..n-1; colcnt_h in range')
+
+# ---- C11 ----
+def gen_c11(ctx):
+    rng = ctx.rng
+    out = []
+    N = 4000 if ctx.quick else 60000
+    for i in range(N):
+        prec = rng.choice(PRECS)
+        sub = rng.choice(['gsequ', 'gsequ', 'laqgs'])
+        n = rng.choice([1, 1, 2, 3, 5, 9, 17]); m = rng.choice([1, 2, 3, 5, 9, 17])
+        c = {'cmd': 'equil', 'sub': sub, 'fam': 'rand', 'n': n, 'm': m, 'dens': rng.choice([0.2, 0.5, 1.0]), 'transversal': 0, 'seed': rng.randrange(1, 1 << 30), 'vals': 'generic'}
+        span = {'d': 1000, 'z': 1000, 's': 120, 'c': 120}[prec]
+        c['espan'] = rng.choice([0, 3, 30, span // 2, span])
+        r = rng.random()
+        if r < 0.15: c['emptyrow'] = rng.randrange(m)
+        elif r < 0.3: c['emptycol'] = rng.randrange(n)
+        elif r < 0.4: c['zerocol'] = rng.randrange(n)
+        elif r < 0.5: c['zerorow'] = rng.randrange(m)
+        out.append(({'variant': 'asan' if i % 6 == 0 else 'plain', 'prec': prec}, c))
+    # the driver part: equilibrating expert-driver calls (A_out/B_out/flag consistency)
+    M = 1500 if ctx.quick else 20000
+    for i in range(M):
+        prec = rng.choice(PRECS)
+        c = gssvx_case(rng, prec, ctx.quick)
+        c['equil'] = 1
+        c['rscale'] = rng.choice([0, 8, 20, 30]); c['cscale'] = rng.choice([0, 8, 20, 30])
+        out.append(({'variant': 'plain', 'prec': prec}, c))
+    return out
+
+def cov_c11(ctx, recs):
+    d = cov_equed(ctx, recs)
+    k = collections.Counter()
+    for r in recs.values():
+        res = r.get('result') or {}
+        if r['case']['cmd'] == 'equil':
+            k['%s/info%s' % (r['case']['sub'], '0' if res.get('info', 0) == 0 else '>0')] += 1
+    d['direct_calls'] = dict(k)
+    return d
+
+PROPS['C11'] = dict(gen=gen_c11, relevant=('C11|',), counters=('nnz',), batch=40, coverage_extra=cov_c11,
+                    nontrivial=lambda r: (r.get('result') or {}).get('nnz', 0) >= 2,
+                    rule='?gsequ and ?laqgs called directly on m x n matrices whose entries are +-2^e with e spread over the whole exponent range of the precision, with zero/empty rows and columns, 1x1; '
+                    'plus equilibrating expert-driver calls on badly scaled systems; 4 precisions; distinct = sha1(case); non-trivial = nnz>=2; oracle: R, C finite >0 and equal to 1/clip(max) within 1.5/4 ulp '
+                    '(|re|+|im| magnitude for c/z), row/column maxima of the scaled matrix equal 1 within a few ulp unless clipped, rowcnd/colcnd/amax recomputed, zero row/column reported by index, '
+                    '?laqgs follows the documented thresholds and scales exactly as its flag says, driver: A_out = R^a A C^b within 3 ulp, B_out exactly the scaled input, flag none => A, B bit-identical',
+                    assumptions=['at the thresholds themselves (0.1 is not representable) either decision of ?laqgs is accepted'])
+
+# ---- C15 ----
+ARG_TABLE = {'gssv': 9, 'gssvx': 24, 'gstrs': 6, 'gsrfs': 12, 'gscon': 5, 'gsequ': 4, 'trsv': 6, 'gemv': 4}
+
+def gen_c15(ctx):
+    rng = ctx.rng
+    out = []
+    for prec in PRECS:
+        for rt, nv in ARG_TABLE.items():
+            for v in range(nv):
+                out.append(({'variant': 'asan' if (v % 2 == 0) else 'plain', 'prec': prec}, {'cmd': 'args', 'rt': rt, 'v1': v, 'n': 4 + v % 3, 'seed': 7 + v}))
+            pairs = [(a, b) for a in range(nv) for b in range(a + 1, nv) if not (rt == 'gssvx' and ((a == 1 and b in (11, 12, 13)) or (a in (11, 12, 13) and b in (11, 12, 13))))]
+            if ctx.quick:
+                rng.shuffle(pairs); pairs = pairs[:25]
+            for a, b in pairs:
+                out.append(({'variant': 'plain' if (a + b) % 3 else 'asan', 'prec': prec}, {'cmd': 'args', 'rt': rt, 'v1': a, 'v2': b, 'n': 5, 'seed': 11 + a * 31 + b}))
+    return out
+
+def cov_c15(ctx, recs):
+    k = collections.Counter()
+    for r in recs.values():
+        res = r.get('result') or {}
+        k[res.get('rt', '?')] += 1
+    return {'calls_by_routine': dict(k), 'violations_in_table': dict(ARG_TABLE)}
+
+PROPS['C15'] = dict(gen=gen_c15, relevant=('C15|',), counters=('xerbla_calls',), batch=30, coverage_extra=cov_c15,
+                    nontrivial=lambda r: 'want' in (r.get('result') or {}),
+                    rule='table-driven: every single documented-precondition violation and pairs of violations (all pairs thorough, 25 sampled per routine quick) for p?gssv, p?gssvx, ?gstrs, ?gsrfs, ?gscon, ?gsequ, sp_?trsv, sp_?gemv, '
+                    '4 precisions, plain and ASan builds; distinct = sha1(case); oracle: info = -(lowest documented position), the error handler is called exactly once with that position, '
+                    'FNV checksums over every argument-reachable byte unchanged, live heap bytes unchanged, no thread created')
